@@ -56,7 +56,15 @@ class CopyResult:
         self.obj = obj
 
 
-def apply(c, op):
+def aux_for(c, op):
+    """Operand built before the threads start (its construction is not part of the operation under test): the
+    thread-private source cache of a cache-to-cache bulk update."""
+    if op[0] in ('update_cache', 'ior_cache'):
+        return type(c)(max_size=len(op[1]) + 2, values=[tuple(p) for p in op[1]])
+    return None
+
+
+def apply(c, op, aux=None):
     name = op[0]
     try:
         if name == 'set':
@@ -85,6 +93,15 @@ def apply(c, op):
             return ('ok', c.update(dict(op[1]), **dict(op[2])))
         if name == 'clear':
             return ('ok', c.clear())
+        if name in ('update_cache', 'ior_cache', 'ior', 'update_self'):
+            # argument shapes of a bulk update: another (thread-private) LRI/LRU holding several keys, `|=`, the cache itself
+            if name == 'update_self':
+                return ('ok', c.update(c))
+            src = dict(op[1]) if name == 'ior' else aux if aux is not None else aux_for(c, op)
+            if name == 'update_cache':
+                return ('ok', c.update(src))
+            c |= src
+            return ('ok', None)
         if name == 'eq':
             return ('ok', c == dict(op[1]))
         if name == 'ne':
@@ -201,7 +218,8 @@ def serial_outcomes(cfg, program):
         results = [[] for _ in program]
         idx = [0] * len(program)
         for t in order:
-            results[t].append(apply(c, program[t][idx[t]]))
+            op = program[t][idx[t]]
+            results[t].append(apply(c, op, aux_for(c, op)))
             idx[t] += 1
         o = finalize(cfg, c, results)
         outs.setdefault(outcome_key(o), order)
@@ -212,11 +230,12 @@ def make_bodies_factory(cfg, program):
     def make_bodies():
         c = make_cache(cfg)
         results = [[] for _ in program]
+        aux = [[aux_for(c, op) for op in ops] for ops in program]
 
         def body(t):
             def run():
-                for op in program[t]:
-                    results[t].append(apply(c, op))
+                for i, op in enumerate(program[t]):
+                    results[t].append(apply(c, op, aux[t][i]))
             return run
 
         peak = [0]
@@ -291,9 +310,13 @@ def alphabet(cfg, reduced=False, quick=False):
     mid = dict(full); mid['a'] = 8
     ops += [('repr',), ('eq', tuple(sorted(mid.items(), key=repr))), ('ne', tuple(sorted(mid.items(), key=repr))),
             ('update_bad', (('c', 3), ('d', 4))), ('update_genraises', (('c', 3), ('a', 6)))]
+    ops += [('ior_cache', (('a', 8), ('c', 4))), ('update_cache', (('a', 8), ('c', 4))), ('ior', (('a', 8), ('c', 4))),
+            ('update_self',)]
     if ms >= 2:
         ops += [('getitem', 'b'), ('set', 'b', 6), ('pop', 'b')]
-    if quick:   # near-duplicates of other entries (same code path on another key) are left to the thorough tier
+    if quick:
+        # `|=` with a cache operand runs update(other_cache): it stands for the three bulk shapes left to the thorough tier
+        ops = [o for o in ops if o[0] not in ('update_cache', 'ior', 'update_self')]   # near-duplicates of other entries (same code path on another key) are left to the thorough tier
         ops = [o for o in ops if o not in (('get', 'a'), ('set', 'b', 6), ('pop', 'b'), ('in', 'c'))
                and o[0] not in ('ne', 'update_genraises')]
     return ops
@@ -337,6 +360,12 @@ CORE3 = (('set', 'c', 2), ('set', 'a', 5), ('getitem', 'a'), ('getitem', 'c'), (
          ('pop', 'a'), ('popitem',), ('update', (('a', 8), ('c', 4))), ('clear',), ('len',), ('in', 'a'))
 
 
+# (between its two stores the merged-into cache differs from both serial states only as a whole: single-key readers and
+# len() of a full cache cannot tell, so the readers chosen are the whole-contents ones)
+IOR_PARTNERS_QUICK = (('copy',), ('repr',), ('eq', (('a', 8), ('b', 1))), ('getitem', 'c'), ('set', 'c', 2), ('del', 'a'),
+                      ('popitem',))
+
+
 def programs(tier):
     """List of (cfg, program, bound).
 
@@ -357,6 +386,10 @@ def programs(tier):
                 names = {x[0], y[0]}
                 if cfg['on_miss'] and not any(o[0] in ('getitem', 'get', 'setdefault') and o[1] == 'c' for o in (x, y)):
                     continue      # on_miss only changes executions that look up an absent key
+                narrow = ('ior_cache',) if quick else ('ior', 'update_self')   # (thorough: update_cache/ior_cache get every partner)
+                if names & set(narrow) and not all(o[0] in narrow or o in IOR_PARTNERS_QUICK for o in (x, y)):
+                    continue      # the cache-to-cache update is the longest operation: the quick tier pairs it with one
+                    #               operation of each kind (readers of the whole contents, a reader of one key, writers)
                 b = 2
                 if quick and cfg['max_size'] == 1:
                     b = 1        # the max_size=2 configurations carry the bound-2 exploration in the quick tier
@@ -381,6 +414,135 @@ def programs(tier):
                 deep = not quick and cfg['on_miss'] is False and {x, y, z} <= set(R[:3])
                 out.append((cfg, ((x,), (y,), (z,)), 2 if deep else 1))
     return out
+
+
+# ----------------------------------------------------------------------------------------------------
+# how an application loads the module: the harness imports `threading` long before boltons.cacheutils, an application
+# need not.  Every order of {import threading (T), import boltons.cacheutils (M), construct the cache (C)} is played in
+# a fresh interpreter; afterwards threads exist (started through _thread), so the lock the cache ended up with must
+# exclude other threads and be re-entrant - whatever the interpreter state was when it was resolved.
+
+LOAD_SCENARIOS = {
+    'TMC': 'threading_imported_before_cacheutils',
+    'MTC': 'threading_imported_between_cacheutils_and_the_cache',
+    'MCT': 'threading_imported_after_the_cache_was_built',
+    'MC': 'threading_never_imported_threads_started_through__thread',
+}
+
+LOAD_PROBE = r"""
+import sys, json, _thread
+repo, steps = sys.argv[1], sys.argv[2]
+sys.path.insert(0, repo)
+out = {'precondition': 'threading' not in sys.modules, 'kinds': {}}
+
+def lock_kind(lock):
+    has_acquire = hasattr(lock, 'acquire') and hasattr(lock, 'release')
+    res = {}
+    done = _thread.allocate_lock(); done.acquire()
+    def other():
+        try:
+            if has_acquire:
+                got = bool(lock.acquire(False))
+                res['other'] = got
+                if got:
+                    lock.release()
+            else:
+                lock.__enter__(); res['other'] = True; lock.__exit__(None, None, None)
+        except BaseException as e:
+            res['other'] = 'raises ' + type(e).__name__
+        finally:
+            done.release()
+    lock.__enter__()
+    try:
+        _thread.start_new_thread(other, ())
+        done.acquire(True, 60 if has_acquire else 1)
+        got_in = res.get('other', False)
+    finally:
+        lock.__exit__(None, None, None)
+    if got_in is not False:
+        return 'none' if got_in is True else got_in
+    if has_acquire:
+        a = lock.acquire(False); b = a and lock.acquire(False)
+        if b: lock.release()
+        if a: lock.release()
+        return 'rlock' if a and b else 'plain'
+    done2 = _thread.allocate_lock(); done2.acquire()
+    def nested():
+        with lock:
+            with lock:
+                pass
+        done2.release()
+    _thread.start_new_thread(nested, ())
+    return 'rlock' if done2.acquire(True, 1) else 'plain'
+
+caches = {}
+step = None
+try:
+    if out['precondition']:
+        for step in steps:
+            if step == 'T':
+                import threading
+            elif step == 'M':
+                from boltons import cacheutils
+            elif step == 'C':
+                for cls in ('LRI', 'LRU'):
+                    caches[cls] = getattr(cacheutils, cls)(max_size=2)
+        step = 'probe'
+        for cls, c in caches.items():
+            lock = getattr(c, '_lock', None)
+            out['kinds'][cls] = 'unknown' if lock is None else lock_kind(lock)
+            c['a'] = 1; c.setdefault('b', 2); c['c'] = 3
+            out['kinds'][cls + ':usable'] = len(c) == 2
+except BaseException as e:
+    out['error'] = '%s raises %s' % ({'T': 'import threading', 'M': 'import boltons.cacheutils', 'C': 'constructing the cache',
+                                    'probe': 'using the cache'}.get(step, step), type(e).__name__)
+print(json.dumps(out))
+"""
+
+
+def load_probe(steps):
+    import json, subprocess, sys
+    try:
+        cp = subprocess.run([sys.executable, '-I', '-c', LOAD_PROBE, core.repo_root(), steps], capture_output=True, text=True, timeout=120)
+    except subprocess.TimeoutExpired:
+        return {'precondition': True, 'kinds': {}, 'error': 'hangs'}
+    try:
+        return json.loads(cp.stdout.strip().splitlines()[-1])
+    except Exception:
+        return {'precondition': True, 'kinds': {}, 'error': 'interpreter exits with %r %s' % (cp.returncode, cp.stderr[-300:])}
+
+
+def load_messages(steps, out):
+    """[(kind, expected, observed)] for one load scenario."""
+    msgs = []
+    if not out.get('precondition'):
+        return msgs
+    if out.get('error'):
+        e = out['error']
+        msgs.append(('hangs' if e == 'hangs' else e if ' raises ' in e else 'interpreter dies',
+                     'the cache can be built and used', e))
+    for cls in ('LRI', 'LRU'):
+        k = out['kinds'].get(cls)
+        if k == 'none':
+            msgs.append(('cache lock does not exclude other threads', 'a real re-entrant lock', cls + ': no-op lock'))
+        elif k == 'plain':
+            msgs.append(('cache lock is not re-entrant', 'a real re-entrant lock', cls + ': plain lock'))
+        elif isinstance(k, str) and k.startswith('raises'):
+            msgs.append(('cache lock ' + k, 'a real re-entrant lock', cls + ': ' + k))
+        if out['kinds'].get(cls + ':usable') is False:
+            msgs.append(('cache unusable', 'set/setdefault work and respect max_size', cls))
+    return msgs
+
+
+def run_load_scenarios(ctx):
+    cov = {}
+    for steps in sorted(LOAD_SCENARIOS):
+        out = load_probe(steps)
+        name = LOAD_SCENARIOS[steps]
+        cov[name] = out.get('kinds') if out.get('precondition') else 'not explorable: threading is loaded at interpreter start'
+        for kind, exp, got in load_messages(steps, out):
+            ctx.violation('C03|load:%s|%s' % (name, kind.replace(' ', '_')), {'load_scenario': steps}, exp, got)
+    return cov
 
 
 # ----------------------------------------------------------------------------------------------------
@@ -434,6 +596,7 @@ def schedules_factory(cfg, program):
 
 def run(ctx):
     cachemod()
+    load_cov = run_load_scenarios(ctx)
     tasks = [(cfg, prog, bound, True) for cfg, prog, bound in programs(ctx.tier)]
     tasks += [(cfg, prog, bound, 'locks') for cfg, prog, bound in big_programs(ctx.tier)]
     ctx.rng.shuffle(tasks)
@@ -466,6 +629,7 @@ def run(ctx):
         shape = 'bulk(lock granularity)' if red == 'locks' else '%dx%d' % (len(prog), max(len(t) for t in prog))
         nb['%s bound %d' % (shape, bound)] = nb.get('%s bound %d' % (shape, bound), 0) + 1
     cov['bounds'] = {'programs_by_shape_and_preemption_bound': nb, 'configs': configs(ctx.tier)}
+    cov['load_scenarios'] = load_cov
     cov['exhaustive'] = not any(r['stats']['capped'] for r in results)
     cov['samples'] = [{'program': r['program'], 'executions': r['stats']['executions'],
                        'distinct_outcomes': r['outcomes'], 'serial_outcomes': r['serial']}
@@ -485,6 +649,9 @@ def run(ctx):
 def replay(ctx, data):
     cachemod()
     case = data['case']
+    if 'load_scenario' in case:
+        return ['%s: expected %r observed %r' % m for m in load_messages(case['load_scenario'],
+                                                                          load_probe(case['load_scenario']))]
     cfg = case['config']
     cfg['prefill'] = tuple(tuple(p) for p in cfg['prefill'])
     program = tuple(tuple(tuple(tuple(tuple(z) if isinstance(z, list) else z for z in y) if isinstance(y, list) else y
